@@ -60,7 +60,9 @@ def generate(prop_module, only=None):
                 if handled:
                     # a path that is required to be rejected and is: recorded as a (trivially discharged) named obligation
                     from z3 import BoolVal
-                    I.obls[('reject:path-raises-' + r.kind, tuple(st.prefix), 0)] = Obligation('reject:path-raises-' + r.kind, [], BoolVal(True), tuple(st.prefix), 'reject')
+                    rn = getattr(u, 'reject_name', None)
+                    if rn: I.obls[(rn, tuple(st.prefix), 0)] = Obligation(rn, [], BoolVal(True), tuple(st.prefix), 'post')
+                    else: I.obls[('reject:path-raises-' + r.kind, tuple(st.prefix), 0)] = Obligation('reject:path-raises-' + r.kind, [], BoolVal(True), tuple(st.prefix), 'reject')
                 if not handled:
                     info['raised'].append(dict(unit=u.name, exc=r.kind, where=(getattr(r.node, 'lineno', None)), prefix=list(st.prefix)))
         for (name, prefix, nth), ob in I.obls.items():
